@@ -204,6 +204,34 @@ theorem repo_call_sites :
     Gen.Skel.Repo_Generic_List = ["GetList"] ∧ Gen.Skel.Repo_Generic_AddToList = ["AppendToList"] := by
   decide +kernel
 
+/-- **Atomicity under concurrent callers, from ANY reachable store.** A sequential history `pre`
+(monotone clock, ending no later than `now`; it may leave live, permanent and expired-but-unswept
+entries of every value kind), then a burst of concurrent callers at clock `now` under EVERY
+schedule that lets them finish, then a sequential probe `suf` (monotone, not before `now`):
+the prefix answers as the reference, the callers' answers are explained by one order of their
+calls run by the reference from the prefix's end state, and the probe answers as the reference
+does after that order (`holdsBurst`, the predicate applied to the real backend's burst runs).
+Same hypothesis `atomicCalls` as `C13_linearizable`. -/
+theorem C13_linearizable_from (_hatomic : atomicCalls = true) (pre suf : History) (now : Nat)
+    (sched : List Nat) (progs : List (List Op))
+    (hpre : TTLStore.Monotone pre = true) (hpre_le : ∀ e ∈ pre, e.1 ≤ now)
+    (hsuf : TTLStore.Monotone suf = true) (hsuf_ge : ∀ e ∈ suf, now ≤ e.1)
+    (hc : completes sched progs = true) :
+    holdsBurst pre now progs suf
+      ((C13.run pre FMap.empty).map render)
+      (observeThreads render progs.length (runSched now sched (exec pre FMap.empty) progs))
+      ((C13.run suf (execSched now sched (exec pre FMap.empty) progs)).map render) = true := by
+  have hR0 : R now (exec pre FMap.empty) (TTLStore.exec Spec.dflt pre TTLStore.empty) :=
+    exec_ref pre FMap.empty TTLStore.empty 0 now (R_refl _ _) (fun _ _ => Nat.zero_le _) hpre hpre_le
+      (Nat.zero_le _)
+  unfold holdsBurst observeThreads
+  rw [C13_refines pre hpre, List.range_eq_range', zip_range progs _ 0]
+  simp only [List.length_map, List.length_range', beq_self_eq_true, Bool.true_and]
+  apply linK_sched now _ sched _ _ progs _ hR0 hc (Nat.le_refl _)
+  intro s' hR'
+  rw [run_ref suf _ s' now hR' hsuf_ge hsuf]
+  exact beq_self_eq_true _
+
 /-- `C13_linearizable` for the source as extracted on this run. -/
 theorem C13_linearizable_current (now : Nat) (sched : List Nat) (progs : List (List Op))
     (hc : completes sched progs = true) :
@@ -248,5 +276,22 @@ example : C13.run exampleHistory FMap.empty =
 /-- A schedule that completes two callers; the hypothesis of `C13_linearizable` is inhabited. -/
 example : completes [1, 0, 0, 1] [[.setNX "a" (.atom (.str "x")) 0, .get "a"], [.setNX "a" (.atom (.str "y")) 0, .get "a"]] = true := by
   decide
+
+/-- Hypotheses of `C13_linearizable_from` are inhabited: an expired-but-unswept key (set at 1000 for
+40 ns, burst at 2000), two callers racing `SetNX` on it, a probe afterwards. -/
+example :
+    TTLStore.Monotone [(1000, Op.set "a" (.atom (.str "x")) 40)] = true ∧
+    completes [1, 0] [[Op.setNX "a" (.atom (.str "y")) 0], [Op.setNX "a" (.atom (.str "z")) 0]] = true ∧
+    (observeThreads render 2 (runSched 2000 [1, 0] (exec [(1000, Op.set "a" (.atom (.str "x")) 40)] FMap.empty)
+      [[Op.setNX "a" (.atom (.str "y")) 0], [Op.setNX "a" (.atom (.str "z")) 0]])) = [["F"], ["T"]] := by
+  decide +kernel
+
+/-- Two winners of `SetNX` on an expired-but-unswept key (seeded regression "RLock fast path") are
+not explained by any order. -/
+theorem setNX_two_winners_witness :
+    holdsBurst [(1000, Op.set "a" (.atom (.str "x")) 40)] 2000
+      [[Op.setNX "a" (.atom (.str "y")) 0], [Op.setNX "a" (.atom (.str "z")) 0]] []
+      ["ok"] [["T"], ["T"]] [] = false := by
+  decide +kernel
 
 end Tunnox.C13
